@@ -378,11 +378,12 @@ impl Context {
         // it and invalidate the invariant that black objects may not point to white objects. Turn
         // the black parent object gray to prevent this.
         //
-        // NOTE: This also adds the pointer to the gray_again queue even if `header.needs_trace()`
-        // is false, but this is not harmful (just wasteful). There's no reason to call a barrier on
-        // a pointer that can't adopt other pointers, so we skip the check.
+        // An object whose type does not need tracing can never adopt a pointer and was never
+        // counted as traced, so it must not be re-queued: un-counting trace work that was never
+        // recorded would underflow the metrics.
         if self.phase == Phase::Mark
             && parent.header().color() == GcColor::Black
+            && parent.header().needs_trace()
             && child
                 .map(|c| matches!(c.header().color(), GcColor::White | GcColor::WhiteWeak))
                 .unwrap_or(true)
@@ -401,6 +402,7 @@ impl Context {
     fn backward_barrier_weak(&self, parent: GcPtr, child: GcPtr) {
         if self.phase == Phase::Mark
             && parent.header().color() == GcColor::Black
+            && parent.header().needs_trace()
             && child.header().color() == GcColor::White
         {
             // Outline the actual barrier code (which is somewhat expensive and won't be executed
